@@ -313,3 +313,30 @@ def _scratch_root() -> str:
 
 def scratch_dir(prefix: str = "w_") -> str:
     return tempfile.mkdtemp(prefix=prefix, dir=_scratch_root())
+
+
+def apalache_inductive(module: str, inv: str = "Inv", init: str = "Init", ind_init: str = "IndInit", timeout_s: int = 300) -> Dict[str, Any]:
+    """Init => Inv (length 0) and Inv /\\ Next => Inv' (length 1, from an arbitrary state satisfying Inv) with Apalache: an unbounded
+    (not small-constants) safety argument for a module over integers.  -> {"base": bool, "step": bool, "wall_s": float, "cmds": [...]}"""
+    import shutil as _sh
+    import subprocess as _sp
+    import time as _t
+    exe = _sh.which("apalache-mc")
+    if not exe:
+        return {"available": False}
+    work = scratch_dir("apa_")
+    out = {"available": True, "cmds": []}
+    t0 = _t.time()
+    try:
+        _sh.copy(os.path.join(SPEC_DIR, module + ".tla"), os.path.join(work, module + ".tla"))
+        for key, ini, length in (("base", init, 0), ("step", ind_init, 1)):
+            cmd = [exe, "check", f"--init={ini}", f"--inv={inv}", f"--length={length}", f"--out-dir={os.path.join(work, 'out_' + key)}", module + ".tla"]
+            p = _sp.run(cmd, cwd=work, capture_output=True, text=True, timeout=timeout_s)
+            out[key] = p.returncode == 0 and "EXITCODE: OK" in p.stdout
+            out["cmds"].append(" ".join(cmd[:5]) + " " + module + ".tla")
+            if not out[key]:
+                out[key + "_tail"] = "\n".join(p.stdout.splitlines()[-12:])
+    finally:
+        _sh.rmtree(work, ignore_errors=True)
+    out["wall_s"] = round(_t.time() - t0, 1)
+    return out
